@@ -146,35 +146,68 @@ MSG_FIELDS = ["target", "caller", "origin", "value", "data", "is_static", "call_
 NET_FIELDS = ["code", "storage", "transient_storage", "balance"]
 
 
+COPY_FIELDS = ["code", "storage", "transient_storage"]     # mutable Python objects (balance is an immutable z3 term)
+
+
+def _copy_kind(f, value, src):
+    """how `value` is obtained from the object `src` of field f: True = a private copy
+    (dict.copy() of the code map -- Contract objects are immutable --, deepcopy of the
+    storage maps), False = the object itself (alias)"""
+    v = U(value)
+    if f == "balance":
+        if v != src:
+            raise TranslateError(f"balance is handed over as {v}")
+        return None
+    if v == src:
+        return False
+    if (f == "code" and v == f"{src}.copy()") or (f != "code" and v == f"deepcopy({src})"):
+        return True
+    raise TranslateError(f"{f}: unexpected way of handing over {src}: {v}")
+
+
 def _restored(if_stmt, who):
-    """fields X with `new_ex.X = <something mentioning orig_X>` in the statement list"""
-    out = []
+    """fields X with `new_ex.X = <orig_X | copy of orig_X>` in the statement list -> {X: copies?}"""
+    out = {}
     for s in if_stmt:
         if isinstance(s, ast.Assign) and len(s.targets) == 1 and isinstance(s.targets[0], ast.Attribute) and U(s.targets[0].value) == who:
             f = s.targets[0].attr
             if f in NET_FIELDS:
-                names = {n.id for n in ast.walk(s.value) if isinstance(n, ast.Name)}
-                if names - {"deepcopy"} != {f"orig_{f}"}:
-                    raise TranslateError(f"restore of {f} does not use orig_{f} alone: {U(s)}")
-                out.append(f)
+                if f in out:
+                    raise TranslateError(f"{f} restored twice")
+                out[f] = _copy_kind(f, s.value, f"orig_{f}")
     return out
 
 
 def _backups(stmts):
-    """orig_X = <expr over ex.X>; returns {field: statement index}"""
-    out = {}
+    """orig_X = <ex.X | copy of ex.X>; returns ({field: statement index}, {field: copies?})"""
+    out, kinds = {}, {}
     for i, s in enumerate(stmts):
         if isinstance(s, ast.Assign) and len(s.targets) == 1 and isinstance(s.targets[0], ast.Name) and s.targets[0].id.startswith("orig_"):
             f = s.targets[0].id[5:]
-            ok = [f"ex.{f}.copy()", f"deepcopy(ex.{f})", f"ex.{f}"]
-            if f not in NET_FIELDS or U(s.value) not in ok:
+            if f not in NET_FIELDS or f in out:
                 raise TranslateError(f"unexpected backup statement {U(s)}")
-            if f == "balance" and U(s.value) != "ex.balance":
-                raise TranslateError(f"unexpected backup statement {U(s)}")
-            if f != "balance" and U(s.value) == f"ex.{f}":
-                raise TranslateError(f"backup of {f} is an alias, not a copy: {U(s)}")
+            kinds[f] = _copy_kind(f, s.value, f"ex.{f}")
             out[f] = i
-    return out
+    return out, kinds
+
+
+def _emit_copies(emit, prefix, kinds):
+    for f in COPY_FIELDS:
+        emit(f"{prefix}_{f}", "", "bool", "true" if kinds.get(f, True) else "false")
+
+
+def _pin_callback_copies(cb, who):
+    """the caller's frame objects captured by the callback are handed to every callee path as
+    private copies (they are shared by all the paths of the callee)"""
+    want = {"context": "deepcopy(ex.context)", "st": "deepcopy(ex.st)", "jumpis": "deepcopy(ex.jumpis)",
+            "pgm": "ex.pgm", "pc": "ex.pc", "insn": "ex.insn", "callback": "ex.callback"}
+    seen = {}
+    for s in ast.walk(cb):
+        if isinstance(s, ast.Assign) and len(s.targets) == 1 and isinstance(s.targets[0], ast.Attribute) and U(s.targets[0].value) == who \
+                and s.targets[0].attr in want:
+            seen[s.targets[0].attr] = U(s.value)
+    if seen != want:
+        raise TranslateError(f"callback: the parent frame is restored as {seen}, expected {want}")
 
 
 def _index(stmts, pred, what):
@@ -226,6 +259,7 @@ def translate(src_text):
     i_hif = _index(call.body, lambda s: isinstance(s, ast.Expr) and U(s.value).startswith("self.handle_insufficient_fund_case"), "hif call")
     if not i_msg < i_hif:
         raise TranslateError("call: handle_insufficient_fund_case before the message is built")
+    i_hif_call = i_hif
     # the static-context check of a value-bearing CALL (absent = the value-bearing CALL is executed)
     i_fund = _index(call.body, lambda s: isinstance(s, (ast.Assign, ast.AnnAssign)) and U(s.target if isinstance(s, ast.AnnAssign) else s.targets[0]) == "fund", "fund assignment")
     st_ifs = [i for i, s in enumerate(call.body) if isinstance(s, ast.If) and "is_static" in U(s.test)]
@@ -285,9 +319,10 @@ def translate(src_text):
         if U(eb[2]) != "ex.path.append(balance_cond)":
             raise TranslateError("send_callvalue: the elif must append balance_cond to the path")
     ck = _nested(call, "call_known")
-    bk = _backups(ck.body)
+    bk, bk_kinds = _backups(ck.body)
     if sorted(bk) != sorted(NET_FIELDS):
         raise TranslateError(f"call_known: backups {sorted(bk)}")
+    _emit_copies(emit, "call_backup_copies", bk_kinds)
     i_send = _index(ck.body, lambda s: isinstance(s, ast.Expr) and U(s.value) == "send_callvalue()", "send_callvalue() in call_known")
     emit("call_backup_before_transfer", "", "bool", "true" if max(bk.values()) < i_send else "false")
     i_cb = _index(ck.body, lambda s: isinstance(s, ast.FunctionDef) and s.name == "callback", "callback")
@@ -303,6 +338,8 @@ def translate(src_text):
     rs = _restored(rif.body, "new_ex")
     for f in NET_FIELDS:
         emit(f"call_restores_{f}", "", "bool", "true" if f in rs else "false")
+    _emit_copies(emit, "call_restore_copies", rs)
+    _pin_callback_copies(cb, "new_ex")
     other = [U(s) for s in cb.body if isinstance(s, ast.Assign) and isinstance(s.targets[0], ast.Attribute)
              and U(s.targets[0].value) == "new_ex" and s.targets[0].attr in NET_FIELDS]
     if other:
@@ -437,9 +474,10 @@ def translate(src_text):
     cl = [U(s) for s in coll.body]
     if cl[:2] != ["ex.st.push(ZERO)", "ex.advance()"] or cl[-2:] != ["stack.push(ex)", "return"] or "subcall.output.data = ByteVec()" not in cl or "subcall.output.error = AddressCollision()" not in cl:
         raise TranslateError("create: collision branch")
-    bk = _backups(cr.body)
+    bk, bk_kinds = _backups(cr.body)
     if sorted(bk) != sorted(NET_FIELDS):
         raise TranslateError(f"create: backups {sorted(bk)}")
+    _emit_copies(emit, "create_backup_copies", bk_kinds)
     i_hif = _index(cr.body, lambda s: isinstance(s, ast.Expr) and U(s.value).startswith("self.handle_insufficient_fund_case"), "hif")
     i_coll = cr.body.index(coll)
     i_setc = _index(cr.body, lambda s: U(s) == "ex.set_code(new_addr, Contract(b''))", "set_code of the new account")
@@ -467,6 +505,8 @@ def translate(src_text):
     rs = _restored(ok.orelse, "new_ex")
     for f in NET_FIELDS:
         emit(f"create_restores_{f}", "", "bool", "true" if f in rs else "false")
+    _emit_copies(emit, "create_restore_copies", rs)
+    _pin_callback_copies(cb, "new_ex")
     sub = _assign_to(cr.body, "sub_ex")
     skw = {k.arg: U(k.value) for k in sub.keywords}
     for f in NET_FIELDS:
@@ -539,6 +579,53 @@ def translate(src_text):
     if pre != ["loc: int = ex.mloc(check_size=False)", "offset = ex.int_of(state.pop(), 'symbolic RETURNDATACOPY offset')",
                "size: int = ex.int_of(state.pop(), 'symbolic RETURNDATACOPY size')"]:
         raise TranslateError(f"run: RETURNDATACOPY operands {pre}")
+
+    # ------------------------------------------------------------------ path forks: create_branch, JUMPI, the worklist
+    br = find_function(tree, "create_branch", cls="SEVM")
+    ret = _find(br.body, lambda s: isinstance(s, ast.Return), "create_branch return")
+    if U(ret.value) != "new_ex":
+        raise TranslateError("create_branch: return new_ex expected")
+    nex = _assign_to(br.body, "new_ex")
+    if not (isinstance(nex, ast.Call) and U(nex.func) == "Exec" and not nex.args):
+        raise TranslateError("create_branch: new_ex = Exec(...) expected")
+    bkw = {k.arg: k.value for k in nex.keywords}
+    kinds = {f: _copy_kind(f, bkw[f], f"ex.{f}") for f in NET_FIELDS if f in bkw}
+    if sorted(kinds) != sorted(NET_FIELDS):
+        raise TranslateError(f"create_branch: network-state fields {sorted(kinds)}")
+    _emit_copies(emit, "branch_copies", kinds)
+    for f, want in (("cnts", "deepcopy(ex.cnts)"), ("st", "deepcopy(ex.st)"), ("context", "deepcopy(ex.context)"), ("callback", "ex.callback"),
+                    ("jumpis", "deepcopy(ex.jumpis)"), ("pgm", "ex.pgm"), ("pc", "target")):
+        if f not in bkw or U(bkw[f]) != want:
+            raise TranslateError(f"create_branch: {f}={U(bkw[f]) if f in bkw else None}, expected {want}")
+    wl = [n for n in tree.body if isinstance(n, ast.ClassDef) and n.name == "Worklist"]
+    if len(wl) != 1:
+        raise TranslateError("class Worklist")
+    wpush = [U(s) for s in find_function(tree, "push", cls="Worklist").body]
+    wpop = find_function(tree, "pop", cls="Worklist").body
+    if wpush != ["self.stack.append(ex)"] or not (len(wpop) == 1 and isinstance(wpop[0], ast.Try) and [U(s) for s in wpop[0].body] == ["return self.stack.pop()"]):
+        raise TranslateError("Worklist: push = append / pop = stack.pop() (LIFO) expected")
+    # the main loop takes the state it just advanced, else the most recently pushed one
+    loops = [n for n in ast.walk(run) if isinstance(n, ast.While)]
+    if len(loops) != 1 or U(loops[0].test) != "(ex := (next_ex or stack.pop())) is not None":
+        raise TranslateError(f"run: main loop must be `while (ex := next_ex or stack.pop()) is not None`, found {[U(l.test) for l in loops]}")
+    # JUMPI with both sides followed: the TRUE side is a create_branch copy pushed first (explored
+    # last), the FALSE side is the state itself, pushed last (explored first)
+    ji = find_function(tree, "jumpi", cls="SEVM")
+    ft = _find(ji.body, lambda s: isinstance(s, ast.If) and U(s.test) == "follow_true", "jumpi `if follow_true`")
+    inner = _find(ft.body, lambda s: isinstance(s, ast.If) and U(s.test) == "follow_false", "jumpi `if follow_false` under follow_true")
+    if [U(s) for s in inner.body] != ["new_ex_true = self.create_branch(ex, cond_true, target)"] or not inner.orelse or U(inner.orelse[0]) != "new_ex_true = ex":
+        raise TranslateError("jumpi: the true side must be create_branch(ex, ...) when both sides are followed, else ex")
+    ff = _find(ji.body, lambda s: isinstance(s, ast.If) and U(s.test) == "follow_false", "jumpi `if follow_false`")
+    if U(ff.body[0]) != "new_ex_false = ex":
+        raise TranslateError("jumpi: the false side must be ex itself")
+    pushes = [U(n.args[0]) for n in ast.walk(ji) if isinstance(n, ast.Call) and U(n.func) == "stack.push"]
+    if pushes != ["new_ex_true", "new_ex_false"]:
+        raise TranslateError(f"jumpi: push order {pushes}")
+    if not ji.body.index(ft) < ji.body.index(ff):
+        raise TranslateError("jumpi: the true side must be prepared (copied) before the false side is advanced")
+    # SEVM.call: the insufficient-funds branch is forked before the dispatch to call_known / call_unknown
+    if not i_hif_call < call.body.index(disp):
+        raise TranslateError("call: handle_insufficient_fund_case must come before the dispatch")
 
     head = ["(* GENERATED by translate/t_callmsg.py from src/halmos/sevm.py -- do not edit *)",
             "From Coq Require Import ZArith Bool.", "From HV Require Import Gen.GenOpcodes Gen.GenConsts.", "Open Scope Z_scope.", ""]
